@@ -619,8 +619,8 @@ func (h *harness) step(step int, op Op, nInt *int) error {
 		if len(comps(op.N)) == 0 {
 			return nil
 		}
-		it := makeInterest(op.N, op.G, op.P && op.G == 0, op.L, uint64(step+1))
-		e := &exInt{id: len(h.ints), name: op.N, cbp: op.P && op.G == 0, g: op.G, digest: digestFor(op.N, op.G),
+		it := makeInterest(op.N, op.G, op.P, op.L, uint64(step+1))
+		e := &exInt{id: len(h.ints), name: op.N, cbp: op.P, g: op.G, digest: digestFor(op.N, op.G),
 			at: clk.now(), life: life(op.L)}
 		h.mu.Lock()
 		h.ints = append(h.ints, e)
@@ -973,6 +973,11 @@ func genCase(t *rapid.T) Case {
 				op.P = true
 			case 4:
 				op.G = rapid.IntRange(1, 3).Draw(t, "digest")
+			case 5:
+				// implicit digest together with CanBePrefix: a longer-named Data can never carry
+				// the requested digest, so it must not resolve this Interest
+				op.G = rapid.IntRange(1, 3).Draw(t, "digest")
+				op.P = true
 			}
 			exps = append(exps, gExp{op.N, now, int64(life(op.L) / time.Microsecond)})
 		case "data":
